@@ -74,7 +74,7 @@ Check ((fun w => eq_refl) : forall w, meas w =
 Check ((fun a b => eq_refl) : forall a b, lexlt a b = ((fst a < fst b)%nat \/ (fst a = fst b /\ (snd a < snd b)%nat))).
 Check ((fun w e => eq_refl) : forall w e, evt_live w e =
   match e with
-  | EvIn fd => exists x, alookup fd (w_conns w) = Some x /\ sc_out x = false /\ k_tosrv (client_of w (sc_client x)) <> []
+  | EvIn fd _ => exists x, alookup fd (w_conns w) = Some x /\ sc_out x = false /\ k_tosrv (client_of w (sc_client x)) <> []
   | EvOut fd _ => exists x, alookup fd (w_conns w) = Some x /\ sc_out x = true
   | EvListener nf => alookup nf (w_conns w) = None /\ w_backlog w <> []
   | EvHup _ | EvKill => False
@@ -221,13 +221,13 @@ Proof. exact token_world_reachable. Qed.
    carry ++ the bytes read -- every complete request is yielded exactly once, with the descriptor
    and instance of the connection; on a parse error nothing is yielded and the 400 is queued *)
 Theorem C08_server_read_is_spec : forall BUF, (2 <= BUF)%nat -> N.of_nat BUF < U32_LIMIT ->
-  forall w toks fd w' ys x ph,
+  forall w toks fd kk w' ys x ph,
   Inv BUF w toks -> alookup fd (w_conns w) = Some x -> CInv BUF (sc_conn x) ph ->
   k_tosrv (client_of w (sc_client x)) <> [] ->
-  handle_event BUF w (EvIn fd) = inl (w', ys) ->
+  handle_event BUF w (EvIn fd kk) = inl (w', ys) ->
   let c := sc_conn x in
   let t := k_tosrv (client_of w (sc_client x)) in
-  let d := firstn (Nat.min (BUF - length (c_win c)) (length t)) t in
+  let d := firstn (read_amount kk (BUF - length (c_win c)) (length t)) t in
   d <> [] /\
   exists y, alookup fd (w_conns w') = Some y /\ sc_gid y = sc_gid x /\ sc_client y = sc_client x /\
     k_tosrv (client_of w' (sc_client x)) = skipn (length d) t /\
